@@ -1,7 +1,7 @@
 #!/bin/bash
 # Replays the Go SemVer 2.0.0 precedence model against node-semver 7.x (bundled with npm).
 cd "$(dirname "$0")/.."
-./.work/vcheck -dumpref semver -dumpmax "${1:-700}" > .work/semver_pairs.txt || exit 2
+"${VERIF_BIN:-.work}/vcheck" -dumpref semver -dumpmax "${1:-700}" > .work/semver_pairs.txt || exit 2
 node -e '
 const semver=require("/usr/lib/node_modules/npm/node_modules/semver");
 const lines=require("fs").readFileSync(".work/semver_pairs.txt","utf8").split("\n");
